@@ -9,7 +9,7 @@ i128 g_x, g_y;                      /* ghost concrete points: arbitrary, never a
 /* ---- harness-side predicates.  dfcc instruments every function reachable from the harness (extra write-set
  * parameter); a function that is ALSO called from a contract clause then gets too few arguments there and the check
  * never finishes.  So harness code uses these self-contained twins (no calls at all) instead of spec.h functions. */
-#define HV(b) ((i128)(((u128)(b).f1.f0.a[0].f1 << 64) | (u128)(b).f1.f0.a[0].f0))
+#define HV(b) ((i128)(((u128)(b).f1.f0.a.f1 << 64) | (u128)(b).f1.f0.a.f0))
 #define H_PINF(b) ((b).f0 != 0 && HV(b) > 0)
 #define H_MINF(b) ((b).f0 != 0 && HV(b) < 0)
 #define H_BLE(a, b) (H_MINF(a) || H_PINF(b) || ((a).f0 == 0 && (b).f0 == 0 && HV(a) <= HV(b)))
